@@ -96,7 +96,10 @@ def _pick_ver(draw, m, ver):
     children when there is one (the hard shape for rename / move / remove)."""
     rich = [p for p in ver if m.has_versioned_children(p)]
     twins = _twins(ver)
-    if twins and draw(st.integers(0, 2)) == 0:
+    dtwins = [p for p in twins if m.real_dir(p)]
+    if dtwins and draw(st.integers(0, 2)) == 0:
+        return _pick(draw, dtwins)
+    if twins and draw(st.integers(0, 3)) == 0:
         return _pick(draw, twins)
     if rich and draw(st.booleans()):
         return _pick(draw, rich)
@@ -121,7 +124,7 @@ def _any_path(draw, m):
 
 OPS = (["write"] * 5 + ["mkdir"] * 3 + ["symlink"] * 2 + ["chmod"] * 2 +
        ["rm_disk"] * 3 + ["change_kind"] * 2 + ["add"] * 6 +
-       ["smart_add"] * 3 + ["remove"] * 3 + ["rename_one"] * 6 +
+       ["smart_add"] * 3 + ["remove"] * 4 + ["rename_one"] * 6 +
        ["move"] * 6 + ["commit"] * 3 + ["revert"] * 2 + ["reopen"] * 3 +
        ["observe"] * 1 + ["reset_parents"] * 1 + ["rebase"] * 2)
 
@@ -196,6 +199,9 @@ def draw_step(draw, m, op=None):
         return ["change_kind", p, k, c, False]
     if op == "add":
         r = draw(st.integers(0, 19))
+        orphans = [p for p in unver if not m.is_versioned(parent(p))]
+        if r < 17 and orphans and draw(st.integers(0, 3)) == 0:
+            return ["add", _pick(draw, orphans)]
         if r < 17:
             if not unver:
                 return None
@@ -203,7 +209,6 @@ def draw_step(draw, m, op=None):
             return ["add", _pick(draw, good or unver)]
         if r == 17 and ver:
             return ["add", _pick(draw, ver)]
-        orphans = [p for p in unver if not m.is_versioned(parent(p))]
         if orphans:
             return ["add", _pick(draw, orphans)]
         return ["add", _any_path(draw, m)]
@@ -233,7 +238,7 @@ def draw_step(draw, m, op=None):
         vdirs =[""] + [p for p in ver if m.real_dir(p)]
         gone = [p for p in ver if m.kind(p) is None]
         landed = [p for p in unver if m.is_versioned(parent(p))]
-        if gone and landed and draw(st.integers(0, 3)) == 0:
+        if gone and landed and draw(st.integers(0, 1)) == 0:
             # "already moved by hand": the versioned source is missing and
             # the target is an unversioned path that exists
             return ["rename_one", _pick(draw, gone), _pick(draw, landed)]
